@@ -80,7 +80,10 @@ func c18Why(k c18Case, s c18Server) string {
 
 func c18Run(c *ev.Ctx, k c18Case) {
 	c.Eval()
-	files := map[string][]string{"one": {c17PKI.CA1File}, "two": {c17PKI.CA1File, c17PKI.CA2File}, "both": {c17PKI.BothFile}}[k.Bundle]
+	files := map[string][]string{"one": {c17PKI.CA1File}, "two": {c17PKI.CA1File, c17PKI.CA2File}, "both": {c17PKI.BothFile},
+		// the same two CAs in other legal layouts (every one of them configures CA 1 and CA 2)
+		"two-no-final-newline": {c17PKI.CA1NoNLFile, c17PKI.CA2File}, "two-unrelated-first-no-final-newline": {c17PKI.PadCA1NoNLFile, c17PKI.CA2File},
+		"both-crlf-with-text": {c17PKI.BothCRLFFile}, "two-reversed": {c17PKI.CA2File, c17PKI.CA1NoNLFile}}[k.Bundle]
 	for i, s := range c17Farm.servers {
 		s.reset()
 		if i >= len(k.Servers) {
@@ -185,7 +188,7 @@ func c18Run(c *ev.Ctx, k c18Case) {
 }
 
 func checkC18(c *ev.Ctx) {
-	c.Rule("real crypki.NewSigner / Sign over real TLS against harness gRPC servers on 127.0.0.1..3:port whose TLS personality is swapped per configuration: CA bundle {one file, two files, one file with two certificates} x server identity {configured CA 1, CA 2, foreign CA, self-signed, expired, not yet valid, other name} x protocol range {1.0-1.1, 1.2, 1.3, 1.0-1.3} x client-certificate policy {require+verify, request, ignore, request while naming only a foreign client CA, verify-if-given against a foreign client CA} (420 single-endpoint configurations), plus endpoint lists of length 2..3 with every placement of one genuine server among impostors of 3 kinds incl. a configured-CA certificate that names the first endpoint (thorough: 7 kinds, two genuine servers); servers record handshakes, negotiated version, peer certificates and whether the RPC handler ran. non-trivial = every configuration; distinct by configuration")
+	c.Rule("real crypki.NewSigner / Sign over real TLS against harness gRPC servers on 127.0.0.1..3:port whose TLS personality is swapped per configuration: CA bundle {one file, two files, one file with two certificates; plus 4 other legal layouts of the two-CA bundle: no newline after the last END line, an unrelated CA in front, CRLF with text between blocks, reversed order} x server identity {configured CA 1, CA 2, foreign CA, self-signed, expired, not yet valid, other name} x protocol range {1.0-1.1, 1.2, 1.3, 1.0-1.3} x client-certificate policy {require+verify, request, ignore, request while naming only a foreign client CA, verify-if-given against a foreign client CA} (420 single-endpoint configurations), plus endpoint lists of length 2..3 with every placement of one genuine server among impostors of 3 kinds incl. a configured-CA certificate that names the first endpoint (thorough: 7 kinds, two genuine servers); servers record handshakes, negotiated version, peer certificates and whether the RPC handler ran. non-trivial = every configuration; distinct by configuration")
 	c.Assume("TLS and gRPC libraries run with their own goroutines and real time; outcomes are deterministic functions of the configuration; handshake internals are trusted")
 	c17PKI = newPKI()
 	defer os.RemoveAll(c17PKI.dir)
@@ -213,6 +216,15 @@ func checkC18(c *ev.Ctx) {
 						c.Sample(k)
 					}
 				}
+			}
+		}
+	}
+	for _, b := range []string{"two-no-final-newline", "two-unrelated-first-no-final-newline", "both-crlf-with-text", "two-reversed"} {
+		for _, id := range []string{"ca1", "ca2", "foreign", "selfsigned"} {
+			for _, pr := range []string{"1.2", "1.3"} {
+				c18Run(c, c18Case{Bundle: b, Servers: []c18Server{{id, pr, "require"}}})
+				c18Run(c, c18Case{Bundle: b, Servers: []c18Server{{"foreign", "1.2", "require"}, {id, pr, "require"}}})
+				n += 2
 			}
 		}
 	}
